@@ -271,6 +271,14 @@ def lives(ctx, n):
                 site.add("http://site.example/toex", status=302, location="http://excluded.example/forbidden/e.png")
                 site.add("http://site.example/lifehub", assets=["/toex", "/api/data.json", "/img/a.png", "/red/1"], outlinks=[])
                 seed = "http://site.example/lifehub"
+            elif k in (3, 4):
+                # requisites whose bodies the extractors reject (cut-off JSON / XML, a playlist without its header) next to good ones:
+                # each costs that one URL, the seed still ends
+                cfg = dict(cfg, includeHosts=[], includeStrings=[], excludeHosts=list(stage.DEFAULT_EXCLUDED), excludeStrings=[], regexes=[],
+                           disableAssets=False, maxRedirect=3, maxHops=k - 3)
+                site.add("http://site.example/bad.m3u8", ctype="application/vnd.apple.mpegurl", kind="raw", body="#EXTINF:4,\nseg0.ts\n#EXT-X-BOGUS\n\x00\x01")
+                site.add("http://site.example/lifehub2", assets=["/api/data.json", "/api/cut.json", "/feed.xml", "/img/a.png", "/bad.m3u8", "/feedok.xml"], outlinks=["/page2"])
+                seed = "http://site.example/lifehub2"
             act, tree, trace = stage.run_seed(run_, cfg, site, seed, seed_id="life%d" % k, max_passes=c06.budget(cfg),
                                               regex_match=stage.regex_matcher(cfg))
             rp = {"domain": "stage", "cfg": cfg, "seed": seed, "site": site.pages}
@@ -290,7 +298,33 @@ def lives(ctx, n):
     stage.compare(ctx, run_, "C01 lives")
 
 
+def stop_while_reporting(ctx, rounds):
+    """a stop request reaches the real finisher while its workers report finished seeds to a slowly reading source (real reactor, real
+    finisher goroutines): every accepted seed is reported once, or still tracked by the reactor, or still in a channel - never lost"""
+    r = ctx.rng
+    lines = [json.dumps({"op": "stopreport", "workers": r.choice([1, 2, 4]), "n": r.choice([6, 12, 24]), "readEveryMs": r.choice([20, 40, 80]),
+                         "beforeStopMs": r.choice([30, 100, 200])}) for _ in range(rounds)]
+    rc, out, err = core.run_impl("pipeline", lines, timeout=600)
+    for l, o in zip(lines, out):
+        ctx.case("stopreport" + l, "acked=0 " not in o)
+        ctx.count("stop-while-reporting")
+        rp = {"domain": "pipeline-impl", "ops": [json.loads(l)], "impl": o}
+        if not o.startswith("accepted="):
+            ctx.violation("stop while the finisher reports: %s" % o[:200], rp); continue
+        f = dict(x.split("=", 1) for x in o.split(" "))
+        if f.get("dropped"):
+            ctx.violation("seed(s) %s were dropped when the stop request reached the finisher: neither reported as finished nor tracked by the reactor nor "
+                          "left in a channel (%s)" % (f["dropped"], o), rp)
+        elif f.get("twice"):
+            ctx.violation("seed(s) %s were reported finished twice around a stop request (%s)" % (f["twice"], o), rp)
+        elif f.get("stopHung") == "true":
+            ctx.violation("finisher.Stop() did not return within 10 s although the source kept reading (%s)" % o, rp)
+    if len(out) != len(lines):
+        ctx.violation("the pipeline harness died during stop-while-reporting: %s" % err[-300:], {"domain": "pipeline-impl", "ops": [json.loads(x) for x in lines]})
+
+
 def run(ctx):
+    stop_while_reporting(ctx, 60 if ctx.thorough() else 8)
     stage_level(ctx, 400 if ctx.thorough() else 25)
     lives(ctx, 600 if ctx.thorough() else 30)
     end_to_end(ctx, 300 if ctx.thorough() else 10)
@@ -311,6 +345,12 @@ def replay(ctx, doc):
         ids = [a["id"] for a in acks]
         if len(ids) != len(set(ids)) or len(set(ids)) != len(rp["scenario"]["seeds"]):
             ctx.violation("replay: acknowledgements %s for %d seeds" % (ids, len(rp["scenario"]["seeds"])), rp)
+    elif rp.get("domain") == "pipeline-impl":
+        rc, out, err = core.run_impl("pipeline", [json.dumps(o) for o in rp["ops"]], timeout=120)
+        for o in out:
+            f = dict(x.split("=", 1) for x in o.split(" ")) if o.startswith("accepted=") else {"dropped": o}
+            if f.get("dropped") or f.get("twice") or f.get("stopHung") == "true":
+                ctx.violation("replay: %s" % o, rp)
     elif "ops" in rp:
         lines = [json.dumps(o) for o in rp["ops"]] + [json.dumps({"op": "close"})]
         impl, model = ctx.pair("pipeline", lines)
